@@ -472,3 +472,11 @@ def pad_last(any_dynamic, a_last, s_last, struct_alignment, static_pad):
     if any_dynamic:
         return -struct_alignment if (a_last < struct_alignment or s_last % struct_alignment != 0) else 0
     return static_pad
+
+
+def blk_step(a_field, dyn_field, acc):
+    """"Fields following dynamic fields", scanned from the last field backwards: `acc` is the greatest
+    alignment of the fields after the current one up to and including the next dynamic field; passing
+    a dynamic field starts a new block (whose first member is that dynamic field itself)"""
+    inner = 1 if dyn_field else acc
+    return a_field if a_field > inner else inner
